@@ -29,7 +29,7 @@ ASSUMPTIONS = [
 ]
 TIME_LIMIT = {"quick": 1200, "thorough": 7200}
 
-FORMATS = ["xyz"]
+FORMATS = ["xyz", "sdf"]
 
 
 def correspond(ctx):
